@@ -57,7 +57,8 @@ def gen_scene(seed, k, family):
         meta['M'] = M
     elif family == 'degenerate':
         kind = rng.choice(['single', 'allnan', 'identical', 'twovalued', 'vv', 'type0height', 'hightype', 'typednan',
-                           'coincident', 'subsecond', 'daylong', 'typednan23', 'orphan', 'orphan', 'twofirst', 'twofirst'])
+                           'coincident', 'subsecond', 'daylong', 'typednan23', 'orphan', 'orphan', 'twofirst', 'twofirst',
+                           'small_multi', 'small_multi', 'one_step', 'one_step'])
         meta['kind'] = kind
         n = rng.choice([1, 2, 5, 12, 40])
         if kind == 'single':
@@ -111,6 +112,19 @@ def gen_scene(seed, k, family):
                     rows.append((c, -15.0 * i, 1100.0 + (i % 2) + rng.choice([300.0, 2.0, 1700.0]), 1))
                 if rng.random() < 0.2:
                     rows.append((c, -15.0 * i, 4100.0, 2))
+        elif kind == 'small_multi':
+            # a few measurements, each with several hits a few feet apart (one slice): more rows than distinct
+            # (ceilometer, time) measurements, around the MAX_HITS_OKTA0 buffer
+            rows = [('0', -15.0 * i, float('nan'), 0) for i in range(3, max(n, 12))]
+            k_meas = rng.choice([1, 2, 3])
+            for i in range(k_meas):
+                for ty in range(1, rng.choice([2, 3, 4]) + 1):
+                    rows.append(('0', -15.0 * i, 1200.0 + 7.0 * ty, ty))
+        elif kind == 'one_step':
+            # several ceilometers reporting at one single, common time step (a set whose hits all share the same dt)
+            nc = rng.choice([2, 4, 5, 6])
+            rows = [(str(c), -15.0 * i, float('nan'), 0) for c in range(nc) for i in range(1, max(n, 6))]
+            rows += [(str(c), 0.0, 2900.0 + 3.0 * c, 1) for c in range(nc)]
         elif kind == 'coincident':
             rows = [(str(c), -15.0 * i, 700.0 + 10 * c + i, 1) for i in range(max(n, 5)) for c in range(3)]
         elif kind == 'subsecond':
@@ -118,6 +132,10 @@ def gen_scene(seed, k, family):
         else:
             rows = [('0', -7200.0 * i, 2000.0 + 30 * (i % 5), 1) for i in range(max(n, 12))]
         prms = scenes.random_prms(rng, rows) if rng.random() < 0.5 else {}
+        if kind == 'small_multi':
+            prms['MAX_HITS_OKTA0'] = rng.choice([2, 3, 3, 4])
+        if kind == 'one_step':
+            prms['MAX_HITS_OKTA0'] = rng.choice([0, 1, 3])
     elif family == 'boundary':
         # flat layers whose base lies just below / on / above a coding boundary (x00 ft up to 10000, x000 ft above)
         n_steps = rng.choice([12, 20, 30])
@@ -157,7 +175,7 @@ def _work(args):
         obs = scenes.run_scene(rows, prms)
     except Exception as e:  # harness problem, not the implementation's
         return {'meta': meta, 'harness_error': f'{type(e).__name__}: {e}'}
-    out = {'meta': meta, 'exc': obs['exc'], 'stage': obs['stage'], 'exc_msg': obs.get('exc_msg'), 'eff_mismatch': obs.get('eff_mismatch'),
+    out = {'meta': meta, 'exc': obs['exc'], 'stage': obs['stage'], 'exc_msg': obs.get('exc_msg'), 'eff_mismatch': obs.get('eff_mismatch'), 'impure_queries': obs.get('impure_queries'),
            'stats': scenes.scene_stats(obs), 'reqs': {}, 'missing': obs['trace'].missing,
            'digest': hashlib.sha1(repr((rows, sorted(prms.items(), key=str))).encode()).hexdigest()[:16],
            'nrows': len(rows), 'prms': prms}
@@ -208,6 +226,8 @@ def run_tables(chk, prop, n_scenes, families=FAMILIES):
                          'messages': res.get('msgs')} if task[1] < 2 else None)
         if res['missing']:
             chk.mismatch('wrapper targets missing', str(res['missing']), replay)
+        if res.get('impure_queries'):
+            chk.mismatch('reading messages / tables / properties leaves the chunk as it was', f"changed by the queries: {res['impure_queries']}", replay)
         if res.get('eff_mismatch'):
             chk.mismatch('chunk.prms = the parameters that were requested', f"differs in {res['eff_mismatch']}", replay)
         if res['exc']:
